@@ -112,7 +112,7 @@ def run(ctx):
     samples = sampled_configs(ctx, 12 if ctx.quick else 60)
     expr += " \\cup {" + ", ".join(mcgen.tla(c) for c in samples) + "}"
     mod, cfg = mcgen.write_mc(d, "bcast", "Bcast", {"Configs": mcgen.Raw(expr)}, invariants=INVS + ("Emit",))
-    r = ctx.tlc_check(d, mod, cfg, must_cover=("Activate", "Finish"), workers=4, timeout=1500)
+    r = ctx.tlc_check(d, mod, cfg, must_cover=("Activate", "Finish"), workers=2, timeout=1500)
     models = [tlc._parse_tla_string_list(l) for l in r.printed]
     models = [m for m in models if m]
     if not models:
@@ -120,14 +120,18 @@ def run(ctx):
     ctx.exhaustive = True
     if not ctx.quick:
         mod, cfg = mcgen.write_mc(d, "bcast63", "Bcast", {"Configs": mcgen.Raw(comprehension(6, 6, 3, 3))}, invariants=INVS)
-        ctx.tlc_check(d, mod, cfg, must_cover=("Activate", "Finish"), workers=4, timeout=2400)
+        ctx.tlc_check(d, mod, cfg, must_cover=("Activate", "Finish"), workers=2, timeout=2400)
     # the model must reproduce the reproduced defect D8 (otherwise the transcription is not faithful)
     d8 = [{"topo": "chain", "n": 3, "root": 0, "dest": [{1, 2}, {2}]}, {"topo": "binomial", "n": 4, "root": 0, "dest": [{1, 2, 3}, {3}]}]
-    for i, c in enumerate(d8):
+    for i, c in enumerate(d8 if not ctx.quick else d8[:1]):
         mod, cfg = mcgen.write_mc(d, "d8_%d" % i, "Bcast", {"Configs": mcgen.Raw("{" + mcgen.tla(c) + "}")}, invariants=("DataAvailInv",))
         rr = ctx.tlc_check(d, mod, cfg, expect_ok=False, workers=1)
         if rr.violated != "DataAvailInv":
             raise tlc.TLCError("the transcription no longer reproduces D8 on %r (got %r)" % (c, rr.violated))
+    for c in d8:      # ... and both inputs must be members of the class in the main run
+        if not any(m["cls"] for m in models if (m["topo"], m["n"], m["root"], m["dest"]) ==
+                   (c["topo"], c["n"], c["root"], [sorted(x) for x in c["dest"]])):
+            raise tlc.TLCError("the D8 input %r is not in the class relay-lacks-output of the model" % c)
     ctx.extra["configurations"] = len(models)
     ctx.extra["in_class_relay_lacks_output"] = sum(1 for m in models if m["cls"])
     if any(not m["eo"] for m in models):
